@@ -417,7 +417,8 @@ pub fn layer2(args: &Args, defs: &[Def], rep: &mut Report) {
         .par_iter()
         .filter(|d| args.only.map_or(true, |o| o == d.e.idx))
         .filter(|d| match prop {
-            "C10" => d.e.name.starts_with("c10_"),
+            // the literal / ignore(case) samples, and every other definition that carries the flag
+            "C10" => d.e.name.starts_with("c10_") || d.e.spec.pats.iter().any(|p| p.icase),
             "C11" => d.e.name.starts_with("c11_") || d.e.name.starts_with("subpat"),
             _ => true,
         })
